@@ -622,6 +622,17 @@ def atof32_check(rep, mod):
     if len(scans) != 2 or len(pows) != 1 or not f.dominates(scans[0], scans[1]):
         raise AnalysisBroken('%s: expected igris_atou32 (integer part), igris_atou64 (fraction) and local_pow calls' % fname)
     S0, S1, P = scans[0], scans[1], pows[0]
+    # the power of ten is accumulated at the width of the value local_pow returns (int64: exact up to 10^18, the limit the known
+    # finding R-FPACC states); in a narrower accumulator it wraps from 10^10 on, i.e. for literals with ten fraction digits
+    lp = need(mod, 'local_pow')
+    muls = [i for L in lp.loops for b in L['blocks'] for i in b.insts if i.op == 'mul']
+    if len(muls) != 1:
+        raise AnalysisBroken('local_pow: expected one multiplication in its loop, found %d' % len(muls))
+    rbits = lp.ret.get('bits')
+    rep.inst('R-ATOF32', 'local_pow', 'the power is accumulated at the width of the result', muls[0].bits == rbits, muls[0].where(),
+             'the power is accumulated in %d bits and widened to the %s-bit result afterwards: 10^n wraps for n >= %d (a literal '
+             'with that many fraction digits is divided by a wrong power)' % (muls[0].bits, rbits, {32: 10, 16: 5, 8: 3}.get(muls[0].bits, 0)),
+             fact={'accumulator_bits': muls[0].bits, 'result_bits': rbits})
 
     def setup(run, st, env, names, args, sps):
         st.ghost['scanned'] = 0
